@@ -51,6 +51,9 @@ class Sys(e2.DevSys):
         self.svcs = services(self.s, self.s2)
         self.log = []
         for n, f in enumerate(self.watched):
+            # stale process history: the same filter was turned into find entries with other TTLs before
+            for ttl in (1, 3, cfg["find_ttl"] + 1):
+                cfg_.Service(*f, eventgroups=frozenset({9})).create_find_entry(ttl)
             self.prot.discovery.watch_service(cfg_.Service(*f), ClientRec(f"L{n}", self.log, self.loop))
         self.rounds = [self.d]
         for i in range(cfg["reps"]):
